@@ -391,6 +391,11 @@ TASK_STATE_MACHINE_DATA = {
         events.ACTION_SUCCEEDED_TASK_DORMANT_ITEMS_COMPLETED: statuses.SUCCEEDED,
     },
     statuses.PAUSED: {
+        # A with items task that is paused between items is active again as soon as its next
+        # item action is accepted by the provider, which may queue it before it is running.
+        events.ACTION_REQUESTED: statuses.REQUESTED,
+        events.ACTION_SCHEDULED: statuses.SCHEDULED,
+        events.ACTION_DELAYED: statuses.DELAYED,
         events.ACTION_RUNNING: statuses.RUNNING,
         events.ACTION_RESUMING: statuses.RESUMING,
         events.ACTION_CANCELING: statuses.CANCELING,
